@@ -180,6 +180,9 @@ func (r *runner) firedWrites(cm msg, classes map[string]int) []*stepWrite {
 	var out []*stepWrite
 	for _, f := range r.fired {
 		classes["insend_write_"+f.Trigger+"_executed"]++
+		if f.TTL && f.err == nil {
+			classes["insend_write_with_relative_expiry"]++
+		}
 		if f.err != nil {
 			classes["insend_write_failed"]++
 			continue
